@@ -89,6 +89,7 @@ def main():
     ap.add_argument("--seeded", action="store_true", help="also run /verif/seeded/*/patch.diff")
     ap.add_argument("--seeded-only", action="store_true", help="run only /verif/seeded/*/patch.diff")
     ap.add_argument("--checks", help="comma list of checks to run instead of the mutant's own property")
+    ap.add_argument("--seeds", default="0", help="comma list of VERIF_SEED values; caught = caught under every seed")
     ap.add_argument("--update-meta", action="store_true", help="record the result under 'recheck' in seeded/<id>/meta.json")
     a = ap.parse_args()
     only = set(a.only.split(",")) if a.only else None
@@ -127,8 +128,15 @@ def main():
                 suite = f" suite={'green' if good else 'RED'}({tail})"
             checks = a.checks.split(",") if a.checks else m.get("checks", [m["property"]])
             for pid in checks:
-                rc, out, wall = run_check(pid, scratch, a.tier)
-                caught = rc == 1 and "VIOLATION property=" in out
+                seeds = a.seeds.split(",")
+                results = [run_check(pid, scratch, a.tier, seed=sd) for sd in seeds]
+                rc, out, wall = results[0]
+                wall = sum(r[2] for r in results)
+                n_caught = sum(1 for r in results if r[0] == 1 and "VIOLATION property=" in r[1])
+                caught = n_caught == len(results)
+                if len(results) > 1:
+                    out = out + f"\nwitness caught under {n_caught}/{len(results)} seeds"
+                    rc = 1 if caught else next((r[0] for r in results if r[0] != 1), rc)
                 first = next((l for l in out.splitlines() if l.startswith("witness")), "")[:300]
                 print(f"{m['id']:40s} {pid} {'CAUGHT' if caught else 'MISSED rc=%d' % rc} {wall:5.1f}s{suite} {first}", flush=True)
                 if a.update_meta and "patch" in m:
